@@ -239,9 +239,11 @@ pub(crate) fn on_task_update(
     let mut need_scheduling = false;
     // This relies on the fact that when worker switching to prefill, it will send Finish, followed by Start
     // And this cannot happen in any other way
+    // (if the started task has been cancelled in the meantime, nothing takes over the resources
+    // of the finished one and the scheduler has to be woken up as for any other finish)
     let is_prefill_update = updates.len() == 2
         && matches!(updates[0], WorkerTaskUpdate::Finished { .. })
-        && matches!(updates[1], WorkerTaskUpdate::RunningPrefilled { .. });
+        && matches!(&updates[1], WorkerTaskUpdate::RunningPrefilled(msg) if core.find_task(msg.task_id).is_some());
     for update in updates {
         match update {
             WorkerTaskUpdate::Finished { task_id } => {
@@ -484,6 +486,8 @@ pub(crate) fn on_retract_response(
         ..
     } = core.split_mut();
     let mut to_workers: Map<WorkerId, Vec<(TaskId, ResourceVariantId)>> = Map::new();
+    let mut need_scheduling = false;
+    let mut worker_freed = false;
     for task_id in task_ids {
         // The task may have been cancelled after the retract request was sent
         let Some(task) = task_map.find_task_mut(*task_id) else {
@@ -495,7 +499,9 @@ pub(crate) fn on_retract_response(
             log::debug!("Retracted task {task_id} is in invalid state");
             continue;
         }
-        worker_map.get_worker_mut(worker_id).retract_resolved();
+        let worker = worker_map.get_worker_mut(worker_id);
+        worker.retract_resolved();
+        worker_freed = worker.is_free();
         if let Some((target_id, rv_id)) = scheduler_state.redirects.remove(task_id) {
             log::debug!("Task {task_id} retracted and redirected to {target_id}");
             task.state = TaskRuntimeState::Assigned {
@@ -508,7 +514,8 @@ pub(crate) fn on_retract_response(
                 .push((*task_id, rv_id));
         } else {
             log::debug!("Task {task_id} retracted, no redirect");
-            task.state = TaskRuntimeState::Waiting { unfinished_deps: 0 }
+            task.state = TaskRuntimeState::Waiting { unfinished_deps: 0 };
+            need_scheduling = true;
         }
     }
     for (target_id, tasks) in to_workers {
@@ -522,6 +529,11 @@ pub(crate) fn on_retract_response(
         if let Some(msg) = task_msg_builder.into_last_message() {
             comm.send_worker_message(target_id, &msg);
         }
+    }
+    // A resolved retraction makes the task ready again, or frees the worker for a multi-node
+    // task; nothing else wakes the scheduler up for it
+    if need_scheduling || worker_freed {
+        comm.ask_for_scheduling();
     }
 }
 
